@@ -1065,6 +1065,165 @@ func (x *sealedScn) runDirect() {
 	}
 }
 
+// runNoKeyID: one record of the case's type stored under an aead wrapper that was given key bytes but no key
+// ID (aead.NewWrapper + SetAesGcmKeyBytes without WithKeyId; KeyId() is ""). What is handed to storage is
+// inspected like everywhere else. The loads get finding keys of their own (prefix wrapper-without-key-id):
+// on the pinned tree the loaders take "wrapping_key_id is set" as the mark of a sealed record, so a record
+// sealed by such a wrapper comes back still sealed and also loads without any wrapper - a recorded finding,
+// see KNOWN_FINDINGS.txt - and that must not hide a different failure of the ordinary round trips.
+func (x *sealedScn) runNoKeyID() {
+	r := x.r
+	sw := world.NewAead("")
+	if kid, _ := sw.KeyId(x.ctx); kid != "" {
+		r.Broken("sealed: aead wrapper built without a key ID reports " + kid)
+		return
+	}
+	sd := x.newSide("direct-wrapper-without-key-id", sw)
+	// twice with the same wrapper object: what the first Store learnt about the wrapper must not change what
+	// the second one writes
+	for round := 0; round < 2 && x.failed == ""; round++ {
+		x.noKeyIDRound(sd, sw, round)
+	}
+}
+
+func (x *sealedScn) noKeyIDRound(sd *sealedSide, sw wrapping.Wrapper, round int) {
+	r := x.r
+	sc := x.sc
+	var X proto.Message
+	switch sc.Type {
+	case sealedNI:
+		v := x.makeInfo(sc.Prev)
+		x.secretsOfInfo(v)
+		X = v
+	case sealedNC:
+		v := x.makeCreds([]nodeenrollment.KnownId{nodeenrollment.CurrentId, nodeenrollment.NextId}[round%2], sc.Prev)
+		x.secretsOfCreds(v)
+		X = v
+	case sealedRoots:
+		v := x.craftedRoots("noop")
+		x.secretsOfRoots(v)
+		X = v
+	case sealedTok:
+		v := &types.ServerLedActivationToken{Id: "tok" + hex.EncodeToString(world.RandBytes(12)), CreationTime: timestamppb.New(time.Now().Add(-time.Duration(1+x.rng.Intn(999_999_000)) * time.Nanosecond))}
+		x.secretOfTokenTime(v.CreationTime)
+		X = v
+	default:
+		x.failed = "unknown record type " + sc.Type
+		return
+	}
+	clear := proto.Clone(X)
+	if err := x.libStore(sd, X); err != nil {
+		r.Violation("wrapper-without-key-id:store-refused:"+sc.Type, "Store under a wrapper without key ID failed: "+err.Error(), x.witness(sealedWitness{Side: sd.name, Record: sc.Type}))
+		return
+	}
+	if tok, ok := X.(*types.ServerLedActivationToken); ok {
+		clear.(*types.ServerLedActivationToken).CreationTimeMarshaled = tok.CreationTimeMarshaled
+	}
+	r.Count("stores_under_a_wrapper_without_key_id:"+sc.Type, 1)
+	x.rtDone = true
+	typ, id := sc.Type, sealedIDOf(clear)
+	wit := func(d string) sealedWitness {
+		return x.witness(sealedWitness{Side: sd.name, Record: typ + "/" + id, Detail: d})
+	}
+	got, err := sealedLibLoad(x.ctx, sd.inner, typ, id, nodeenrollment.WithStorageWrapper(sw))
+	switch {
+	case err != nil:
+		r.Violation("wrapper-without-key-id:load-with-same-wrapper-failed:"+typ, "a record stored under a wrapper without key ID does not load with that wrapper: "+err.Error(), wit("same wrapper"))
+	case len(sealedDiff(clear, got)) > 0:
+		r.Violation("wrapper-without-key-id:load-with-same-wrapper-differs:"+typ, fmt.Sprintf("a %s record stored under a wrapper without key ID loads with that wrapper but differs from what was stored in fields %v (the sealed values come back unopened)", typ, sealedDiff(clear, got)), wit("same wrapper"))
+	default:
+		r.Count("wrapper_without_key_id:round_trip_equal:"+typ, 1)
+	}
+	if _, err := sealedLibLoad(x.ctx, sd.inner, typ, id); err == nil {
+		r.Violation("wrapper-without-key-id:load-without-wrapper-succeeded:"+typ, fmt.Sprintf("a %s record stored under a wrapper without key ID loads without any wrapper", typ), wit("no wrapper"))
+	} else {
+		r.Count("wrapper_without_key_id:load_without_wrapper_refused:"+typ, 1)
+	}
+	if _, err := sealedLibLoad(x.ctx, sd.inner, typ, id, nodeenrollment.WithStorageWrapper(world.NewAead(""))); err == nil {
+		r.Violation("wrapper-without-key-id:load-with-other-wrapper-succeeded:"+typ, fmt.Sprintf("a %s record stored under a wrapper without key ID loads with a different wrapper (another key, also without key ID)", typ), wit("other wrapper"))
+	} else {
+		r.Count("wrapper_without_key_id:load_with_other_wrapper_refused:"+typ, 1)
+	}
+}
+
+// runPooled: records of the case's type stored under a pool of aead keys (multi.PooledWrapper) whose encrypting
+// key the operator rolls over between the store and the load: the pool still holds the older key, and finds it
+// through the key information that is stored with every sealed value - "loading with the same wrapper returns
+// exactly what was stored" has to hold across the roll-over, for what was sealed before and after it.
+func (x *sealedScn) runPooled() {
+	r := x.r
+	sc := x.sc
+	pool, err := multi.NewPooledWrapper(x.ctx, world.NewAead("pool-"+hex.EncodeToString(world.RandBytes(4))))
+	if err != nil {
+		x.failed = "pooled wrapper: " + err.Error()
+		return
+	}
+	sd := x.newSide("direct-pooled-wrapper", pool)
+	mk := func(second bool) proto.Message {
+		switch sc.Type {
+		case sealedNI:
+			v := x.makeInfo(sc.Prev)
+			x.secretsOfInfo(v)
+			return v
+		case sealedNC:
+			id := nodeenrollment.CurrentId
+			if second {
+				id = nodeenrollment.NextId
+			}
+			v := x.makeCreds(id, sc.Prev)
+			x.secretsOfCreds(v)
+			return v
+		case sealedRoots:
+			v := x.craftedRoots("noop")
+			x.secretsOfRoots(v)
+			return v
+		case sealedTok:
+			v := &types.ServerLedActivationToken{Id: "tok" + hex.EncodeToString(world.RandBytes(12)), CreationTime: timestamppb.New(time.Now().Add(-time.Duration(1+x.rng.Intn(999_999_000)) * time.Nanosecond))}
+			x.secretOfTokenTime(v.CreationTime)
+			return v
+		}
+		return nil
+	}
+	store := func(m proto.Message) (proto.Message, bool) {
+		clear := proto.Clone(m)
+		if err := x.libStore(sd, m); err != nil {
+			x.failed = "Store of a harness-built " + sealedTypeOf(m) + " under a pooled wrapper failed: " + err.Error()
+			return nil, false
+		}
+		if tok, ok := m.(*types.ServerLedActivationToken); ok {
+			clear.(*types.ServerLedActivationToken).CreationTimeMarshaled = tok.CreationTimeMarshaled
+		}
+		return clear, true
+	}
+	X := mk(false)
+	if X == nil {
+		x.failed = "unknown record type " + sc.Type
+		return
+	}
+	clearX, ok := store(X)
+	if !ok {
+		return
+	}
+	for i := 0; i <= sc.Variant%2; i++ {
+		if _, err := pool.SetEncryptingWrapper(x.ctx, world.NewAead("pool-"+hex.EncodeToString(world.RandBytes(4)))); err != nil {
+			panic(err)
+		}
+		r.Count("pooled_wrapper_key_rollovers_between_store_and_load", 1)
+	}
+	x.roundTrip(sd, clearX)
+	if sc.Type == sealedRoots {
+		// one root set per storage: nothing else to store next to it
+		return
+	}
+	Y := mk(true)
+	clearY, ok := store(Y)
+	if !ok {
+		return
+	}
+	x.roundTrip(sd, clearY)
+	x.roundTrip(sd, clearX)
+}
+
 // ---------------------------------------------------------------------------
 // flow cases
 
@@ -1679,6 +1838,10 @@ func runSealedCase(c *engine.Ctx, sc sealedCase) {
 			x.runFlow()
 		case "faultflow":
 			x.runFaultFlow()
+		case "nokeyid":
+			x.runNoKeyID()
+		case "pooled":
+			x.runPooled()
 		default:
 			x.failed = "unknown case kind " + sc.Kind
 		}
@@ -1745,6 +1908,22 @@ func runSealed(c *engine.Ctx) engine.Result {
 	}
 	rng := c.Rng("sealed")
 	var cases []sealedCase
+	// a wrapper without key ID, each record type with and without a retained previous key
+	for _, typ := range []string{sealedNI, sealedNC, sealedRoots, sealedTok} {
+		for _, pv := range []bool{false, true} {
+			for v := 0; v < c.Pick(1, 4); v++ {
+				cases = append(cases, sealedCase{Kind: "nokeyid", Backend: world.Inmem, Type: typ, Prev: pv, Bundles: true, State: v%2 == 1, Variant: v})
+			}
+		}
+	}
+	// a pool of keys rolled over between store and load, each record type
+	for _, typ := range []string{sealedNI, sealedNC, sealedRoots, sealedTok} {
+		for _, pv := range []bool{false, true} {
+			for v := 0; v < c.Pick(2, 6); v++ {
+				cases = append(cases, sealedCase{Kind: "pooled", Backend: world.Backends[v%len(world.Backends)], Type: typ, Prev: pv, Bundles: true, State: v%2 == 1, Variant: v})
+			}
+		}
+	}
 	// direct cases
 	nv := c.Pick(1, 8)
 	for v := 0; v < nv; v++ {
